@@ -35,6 +35,7 @@ MATCHERS = {
     'pattern_matches_ancestor_of_input': lambda v: v.get('tag') == 'K7',
     'user_config_dir_created': lambda v: v.get('tag') == 'K9',
     'value_is_rest_transition': lambda v: v.get('tag') == 'K10',
+    'extra_is_execute_process_keyword': lambda v: v.get('tag') == 'K11',
     'strseq_accepts_mapping': lambda v: (v.get('key') or [None, None, None])[0] == 'wrongtype' and v['key'][1] == 'rst.headers' and v['key'][2].startswith('{'),
 }
 
